@@ -391,19 +391,23 @@ def r5(db, rep):
 def r6(db, rep):
     """IPv6 extension headers: the length byte written announces exactly the bytes written (data + padding), in the
     unit the parser uses.  Finite evaluation over the data size (both sides are affine with period 8)."""
-    w = db.fns_named("Tins::IPv6::write_header")
     p = db.fns_named("Tins::IPv6::get_padding_size")
+    # the writer of one extension header, by role: the IPv6 member that writes `<header>.option()` (a helper of its own or
+    # the body of write_serialization's loop)
+    w = [f for f in db.functions.values() if f.get("rec") == "Tins::IPv6" and f.get("body") and option_write(f) is not None]
     ctor = [f for f in db.functions.values() if f.get("rec") == "Tins::IPv6" and f.get("kind") == "ctor" and len(f["params"]) == 2
             and (facts.tyi(f, f["params"][0]["t"]) or {}).get("s") == "const unsigned char *"]
     if not w or not p or not ctor:
         rep.analysis_broken("IPv6::write_header / get_padding_size / parsing constructor not found")
         return
     w, p, ctor = w[0], p[0], ctor[0]
-    key = "IPv6::write_header:length-byte"
+    key = "IPv6::write_header:length-byte"        # the instance keeps its name wherever the writer lives
     # the length byte: the 1-byte value written second
     writes = [n for n in facts.fn_nodes(w) if n["k"] == "CXXMemberCallExpr" and n.get("cname") == "write" and len(n["c"]) == 2]
+    ow = option_write(w)
+    writes = writes[[id(x) for x in writes].index(id(ow)):]
     if len(writes) < 2:
-        rep.analysis_broken("IPv6::write_header: length write not found")
+        rep.analysis_broken("IPv6 extension header writer: length write not found")
         return
     lnode = writes[1]["c"][1]
     wl = {}
@@ -463,13 +467,23 @@ def r6(db, rep):
         rep.ok("R6-length-byte", key, facts.loc(w, writes[1]), "8 * (length byte + 1) == 2 + data + padding for data sizes 0..40 (affine, period 8)")
 
 
+def option_write(f):
+    for n in facts.fn_nodes(f):
+        if n["k"] == "CXXMemberCallExpr" and n.get("cname") == "write" and len(n["c"]) == 2 and any(
+                x["k"] == "CXXMemberCallExpr" and x.get("cname") == "option" for x in facts.walk(n["c"][1])):
+            return n
+    return None
+
+
 def eval_local_after(f, node, tf, db, locs, val):
     """if `node` is a local that is conditionally re-assigned before use (spoof test), replay those assignments"""
     n0 = facts.strip_all(node)
     if n0["k"] != "DeclRefExpr":
         return val
     var = n0.get("var")
-    for st in f["body"].get("c", []):
+    for st in facts.fn_nodes(f):
+        if st is node or st is n0:
+            break
         if st["k"] == "IfStmt":
             real = [x for x in st["c"] if x is not None]
             try:
